@@ -597,6 +597,8 @@ class MiniEval:
             raise Unevaluable(f"OID attribute {expr.attr}")
         if isinstance(base, slice) and expr.attr in ("start", "stop", "step"):
             return getattr(base, expr.attr)
+        if isinstance(base, type) and base is dict and expr.attr == "fromkeys":
+            return ("builtin-method", dict, "fromkeys")
         if isinstance(base, type) and base is int and expr.attr == "from_bytes":
             return ("builtin-method", int, "from_bytes")
         if isinstance(base, (dict, list, tuple, str, bytes, set, int)):
@@ -714,6 +716,11 @@ class MiniEval:
                     return out
             if isinstance(base, OidVal) and meth == "pythonize":
                 return str(base)
+            if base is dict and meth == "fromkeys":
+                try:
+                    return dict.fromkeys(self.iterate(args[0]), *args[1:])
+                except Exception as exc:  # pylint: disable=broad-except
+                    raise Unevaluable(f"dict.fromkeys: {exc}") from exc
             if base is int and meth == "from_bytes":
                 try:
                     return int.from_bytes(*args, **kwargs)
